@@ -156,8 +156,26 @@ func (r *replayer) runBehaviour(t *testing.T, st *store, beh []step, key string)
 			Case: map[string]interface{}{"variant": st.variant, "behaviour": beh, "step": i},
 			Got:  got, Want: want})
 	}
+	defer func() {
+		if p := recover(); p != nil { // Get/Delete of the code under test panicked on the controller goroutine
+			r.res.Mismatch(abs.Mismatch{Sig: fmt.Sprintf("replay %s: panic", st.variant),
+				Case: map[string]interface{}{"variant": st.variant, "behaviour": beh}, Got: fmt.Sprint(p), Want: "no panic"})
+		}
+	}()
 	ok := true
 	for i, s := range beh[1:] {
+		if s.A == "delete" { // outside C07 (documentation configs): somebody deletes the key
+			if err := st.client.Delete(ctx, key); err != nil {
+				fail(i+1, s, "Delete", err.Error(), "nil")
+				break
+			}
+			got, gerr := st.client.Get(ctx, key)
+			if gv, perr := asVal(got); gerr != nil || perr != nil || !eqTriples(gv, norm(s.Val)) {
+				fail(i+1, s, "Get", map[string]interface{}{"val": gv, "err": fmt.Sprint(gerr, perr)}, norm(s.Val))
+				break
+			}
+			continue
+		}
 		c := cs[s.C]
 		switch s.A {
 		case "begin":
@@ -264,15 +282,32 @@ func describe(st int, err error) string {
 }
 
 func TestReplay(t *testing.T) {
-	in := os.Getenv("VERIF_IN")
-	if in == "" {
+	if os.Getenv("VERIF_IN") == "" {
 		t.Skip("VERIF_IN not set")
 	}
 	res := &abs.Result{}
-	r := &replayer{res: res, covered: map[string]bool{}, perVar: map[string]int{}, corrupt: os.Getenv("VERIF_CORRUPT")}
+	doReplay(t, res)
+	res.Write(t)
+}
+
+// TestAll = TestReplay + TestRecord in one process (one link step less in the quick tier).
+func TestAll(t *testing.T) {
+	if os.Getenv("VERIF_IN") == "" || os.Getenv("VERIF_TRACE") == "" {
+		t.Skip("VERIF_IN / VERIF_TRACE not set")
+	}
+	res := &abs.Result{}
+	doReplay(t, res)
+	if res.Fatal == "" {
+		doRecord(t, res)
+	}
+	res.Write(t)
+}
+
+func doReplay(t *testing.T, res *abs.Result) {
+	in := os.Getenv("VERIF_IN")
+	r := &replayer{res: res, covered: map[string]bool{}, perVar: map[string]int{}, corrupt: os.Getenv("VERIF_CORRUPT_REPLAY")}
 	if _, err := initInMemory(); err != nil { // outside any bubble
 		res.Fatal = err.Error()
-		res.Write(t)
 		return
 	}
 	only := os.Getenv("VERIF_VARIANTS") // optional comma list
@@ -348,7 +383,7 @@ func TestReplay(t *testing.T) {
 		cov = append(cov, k)
 	}
 	res.AddExtra("replay_classes", len(cov))
-	res.Write(t)
+	res.AddExtra("replayed", res.Cases)
 }
 
 // nontrivial: some attempt of some call did not end the call normally at once - a conflict or an
